@@ -307,8 +307,12 @@ func c05InstrDominates(a, b ssa.Instruction) bool {
 // ---------------------------------------------------------------------------
 // C05.bitiox
 
-func c05Bitiox(r *fw.Run, p *fw.Program) {
-	ru := r.Rule("C05.bitiox", "internal/bitiox: Range(br,start,n) is NewSectionReader(br,start,n) after rejecting n<0 and start+n>Len; CopyBits copies src through bitio.NewIOReader into dst; Len returns the SeekEnd position and restores the position", 6)
+func c05Bitiox(r *fw.Run, p *fw.Program) { c05BitioxAs(r, p, "C05.bitiox") }
+
+// c05BitioxAs runs the bitiox plumbing rule under the given rule id (shared by C01 and C03, whose
+// anchors include internal/bitiox/bitiox.go and the sub-reader windows built on bitiox.Range).
+func c05BitioxAs(r *fw.Run, p *fw.Program, id string) {
+	ru := r.Rule(id, "internal/bitiox: Range(br,start,n) is NewSectionReader(br,start,n) after rejecting n<0 and start+n>Len; CopyBits copies src through bitio.NewIOReader into dst; Len returns the SeekEnd position and restores the position", 6)
 	if fn := c05Anchor(ru, p, c05BitioxRng); fn != nil {
 		e := fw.NewSymEnv(fn)
 		cs := fw.CallsTo(fn, "pkg/bitio.NewSectionReader")
